@@ -4,6 +4,6 @@ CONSTANTS
   ConsKinds = {"get"}
 INVARIANTS
   TypeOK InvokedAtMostOnce DeliveredIntact DeliveredAtQuiescence OwnershipOK ReleasedAtQuiescence WaitMeansReady NoRace
-  AbsAtMostOnce AbsIntact AbsNothingIfDropped AbsWaitMeansReady AbsEnd
+  AbsAtMostOnce AbsIntact AbsNothingIfDropped AbsWaitMeansReady AbsEnd AbsNoUseAfterReturn
 POSTCONDITION Accepted
 CHECK_DEADLOCK FALSE
